@@ -958,12 +958,18 @@ def Session.activated (s : Session) (sp : Bool) (block : Bytes) (now : Nat) : Se
   let rt : Runtime :=
     { s1.rt with sessionResumed := sp, keepaliveMs := c.2.2.2.2.1, sendQuota := c.1 - s1.data.outbound.inflightPublishes, maxSendQuota := c.2.1, maxQos := c.2.2.1, maximumPacketSize := c.2.2.2.1, deficit := decide (c.1 < s1.data.outbound.inflightPublishes) }
   let rt2 : Runtime := { rt with nextPing := rt.keepaliveSendInterval.map (fun i => now + i * 1000), pingTimeout := none }
-  { s1 with rt := rt2, clientId := c.2.2.2.2.2.getD s1.clientId, data := { s1.data with sessionPresent := true } }
+  { s1 with rt := rt2, clientId := c.2.2.2.2.2.getD s1.clientId, data := { s1.data with sessionPresent := true, everAccepted := true, halfReset := false, assignedId := c.2.2.2.2.2.or s1.data.assignedId } }
+
+/-- The session after a rejected CONNACK: the reset (if `sp = false`) stays, the ghost flag `halfReset`
+records it, and the session is disconnected. -/
+def Session.rejected (s : Session) (sp : Bool) : Session :=
+  let s1 := s.preActivate sp
+  ({ s1 with data := { s1.data with halfReset := s1.data.halfReset || !sp } } : Session).handleDisconnect
 
 /-- **CONNACK processing, case by case.** -/
 theorem activate_eq (s : Session) (sp : Bool) (block : Bytes) (now : Nat) :
     (connackBlockOk block → s.activate sp block now = (s.activated sp block now, .ok ())) ∧
-    (¬ connackBlockOk block → s.activate sp block now = ((s.preActivate sp).handleDisconnect, .error .peerInvalid)) := by
+    (¬ connackBlockOk block → s.activate sp block now = (s.rejected sp, .error .peerInvalid)) := by
   constructor
   · intro h
     unfold Session.activate
@@ -975,7 +981,7 @@ theorem activate_eq (s : Session) (sp : Bool) (block : Bytes) (now : Nat) :
     unfold Session.activate
     simp only []
     rw [connackFold_err _ _ h]
-    simp only [Session.preActivate]
+    simp only [Session.rejected, Session.preActivate]
 
 theorem activate_ok_iff (s : Session) (sp : Bool) (block : Bytes) (now : Nat) :
     (s.activate sp block now).2 = .ok () ↔ connackBlockOk block := by
@@ -1048,8 +1054,8 @@ theorem Prim.sessionPresent_rises {s s' : Session} (h : Prim s s') (hp : s.data.
     · exact (activate_ok_iff s sp block now).2 hb
     · rw [(activate_eq s sp block now).2 hb] at hp'
       cases sp with
-      | true => rw [preActivate_true] at hp'; simp [Session.handleDisconnect, hp] at hp'
-      | false => simp [Session.handleDisconnect, preActivate_false, SessionData.reset] at hp'
+      | true => rw [show (s.rejected true).data.sessionPresent = s.data.sessionPresent from rfl, hp] at hp'; cases hp'
+      | false => rw [show (s.rejected false).data.sessionPresent = false from rfl] at hp'; cases hp'
   · rw [hid.sessionPresent, hp] at hp'; cases hp'
 
 /-- It becomes false only in a CONNACK that reports no session and is then rejected because of
@@ -2297,4 +2303,276 @@ theorem startConnect_wire (w : World) (hinv : w.sess.data.outbound.ArenaInv) (of
   · rw [d1]; show w.connectStart.nets.length = _; rw [c2]; simp
   · rw [d2]; show w.connectStart.nets.dropLast = _; rw [c2]; simp
   · rw [d3]; show w.connectStart.curNet.wire ++ _ = _; rw [c3]; simp
+end Minimq
+
+namespace Minimq
+open Gen World Outbound
+
+/-! ## Ghost history of the session: accepted CONNACKs, the F19 half-reset, the assigned identifier -/
+
+/-- The three ghost fields of `SessionData` are unchanged. -/
+structure SameGhost (s s' : Session) : Prop where
+  everAccepted : s'.data.everAccepted = s.data.everAccepted
+  halfReset : s'.data.halfReset = s.data.halfReset
+  assignedId : s'.data.assignedId = s.data.assignedId
+
+theorem handlePacket_ghost (d : SessionData) (r : Runtime) (p : Recv) :
+    (handlePacket d r p).1.everAccepted = d.everAccepted ∧ (handlePacket d r p).1.halfReset = d.halfReset ∧
+    (handlePacket d r p).1.assignedId = d.assignedId := by
+  cases p <;> simp only [handlePacket]
+  all_goals (repeat' split)
+  all_goals (first | exact ⟨rfl, rfl, rfl⟩ | simp)
+
+theorem nextPacketIdFuel_ghost (fuel : Nat) (d : SessionData) :
+    (d.nextPacketIdFuel fuel).1.everAccepted = d.everAccepted ∧ (d.nextPacketIdFuel fuel).1.halfReset = d.halfReset ∧
+    (d.nextPacketIdFuel fuel).1.assignedId = d.assignedId := by
+  induction fuel generalizing d with
+  | zero => exact ⟨rfl, rfl, rfl⟩
+  | succ n ih =>
+    simp only [SessionData.nextPacketIdFuel]
+    split
+    · exact ⟨rfl, rfl, rfl⟩
+    · exact ih _
+
+theorem nextPacketId_ghost (d : SessionData) :
+    d.nextPacketId.1.everAccepted = d.everAccepted ∧ d.nextPacketId.1.halfReset = d.halfReset ∧
+    d.nextPacketId.1.assignedId = d.assignedId := nextPacketIdFuel_ghost _ d
+
+/-- Every primitive other than CONNACK processing leaves the ghost history alone. -/
+theorem Prim.ghost {s s' : Session} (h : Prim s s') :
+    (∃ sp block now, s' = (s.activate sp block now).1) ∨ SameGhost s s' := by
+  cases h with
+  | activate _ sp block t => exact Or.inl ⟨sp, block, t, rfl⟩
+  | queuePing _ t _ hq =>
+    right
+    rcases Session.queuePing_ok hq with rfl | ⟨o, _, rfl⟩
+    · exact ⟨rfl, rfl, rfl⟩
+    · exact ⟨rfl, rfl, rfl⟩
+  | completeFlush _ pkt t => exact Or.inr ⟨rfl, rfl, rfl⟩
+  | setWritten => exact Or.inr ⟨rfl, rfl, rfl⟩
+  | takePkt =>
+    right
+    unfold Session.takePkt
+    cases s.reader.takePacket; exact ⟨rfl, rfl, rfl⟩
+  | handle _ p =>
+    right
+    obtain ⟨h1, h2, h3⟩ := handlePacket_ghost s.data s.rt p
+    exact ⟨by rw [Session.handle_fst_data]; exact h1, by rw [Session.handle_fst_data]; exact h2,
+      by rw [Session.handle_fst_data]; exact h3⟩
+  | handleDisconnect => exact Or.inr ⟨rfl, rfl, rfl⟩
+  | alloc =>
+    right
+    obtain ⟨g1, g2, g3⟩ := nextPacketId_ghost s.data
+    rw [Session.alloc_fst]
+    exact ⟨g1, g2, g3⟩
+  | encodeConnect _ c => right; rw [Session.encode_fst]; exact ⟨rfl, rfl, rfl⟩
+  | encodeAfterAlloc _ enc he =>
+    right
+    obtain ⟨g1, g2, g3⟩ := nextPacketId_ghost s.data
+    rw [Session.encode_fst, Session.alloc_fst]
+    exact ⟨g1, g2, g3⟩
+  | encodeScratch _ enc he => right; rw [Session.encode_fst]; exact ⟨rfl, rfl, rfl⟩
+  | enqueue _ enc off len isPub _ typ he ht hp hq hres hr =>
+    right
+    obtain ⟨g1, g2, g3⟩ := nextPacketId_ghost s.data
+    rw [Session.encode_fst, Session.alloc_fst] at hr
+    unfold Session.retain at hr
+    split at hr
+    · simp at hr
+    · simp at hr; subst hr
+      split <;> exact ⟨g1, g2, g3⟩
+  | clearPing => exact Or.inr ⟨rfl, rfl, rfl⟩
+  | noteActivity => exact Or.inr ⟨rfl, rfl, rfl⟩
+  | window _ _ n hw =>
+    right
+    unfold Session.window at hw
+    split at hw
+    · simp at hw
+    · simp at hw; rw [← hw.1]; exact ⟨rfl, rfl, rfl⟩
+  | commit => exact Or.inr ⟨rfl, rfl, rfl⟩
+  | beginConnect => exact Or.inr ⟨rfl, rfl, rfl⟩
+  | setPid => exact Or.inr ⟨rfl, rfl, rfl⟩
+
+/-- What an accepted CONNACK does to the ghost history and the identity. -/
+theorem activated_ghost (s : Session) (sp : Bool) (block : Bytes) (now : Nat) :
+    (s.activated sp block now).data.everAccepted = true ∧ (s.activated sp block now).data.halfReset = false ∧
+    (s.activated sp block now).data.sessionPresent = true ∧
+    (s.activated sp block now).data.assignedId =
+      (lastStr .AssignedClientIdentifier (iterEncoded block)).or s.data.assignedId ∧
+    (s.activated sp block now).clientId = (lastStr .AssignedClientIdentifier (iterEncoded block)).getD s.clientId := by
+  cases sp <;> exact ⟨rfl, rfl, rfl, rfl, rfl⟩
+
+/-- What a rejected CONNACK does to them: with `sp = true` nothing; with `sp = false` the session has
+been reset (`sessionPresent = false`) and `halfReset` is raised. -/
+theorem rejected_ghost (s : Session) :
+    ((s.rejected true).data.everAccepted = s.data.everAccepted ∧ (s.rejected true).data.halfReset = s.data.halfReset ∧
+      (s.rejected true).data.sessionPresent = s.data.sessionPresent ∧ (s.rejected true).data.assignedId = s.data.assignedId ∧
+      (s.rejected true).clientId = s.clientId) ∧
+    ((s.rejected false).data.everAccepted = s.data.everAccepted ∧ (s.rejected false).data.halfReset = true ∧
+      (s.rejected false).data.sessionPresent = false ∧ (s.rejected false).data.assignedId = s.data.assignedId ∧
+      (s.rejected false).clientId = s.clientId) := by
+  refine ⟨⟨rfl, ?_, rfl, rfl, rfl⟩, ⟨rfl, ?_, rfl, rfl, rfl⟩⟩
+  · show (s.data.halfReset || !true) = _
+    simp
+  · show (s.data.reset.halfReset || !false) = _
+    simp
+
+/-- **The invariant behind "after the first accepted CONNACK every CONNECT asks to resume".**
+`cfgId` is the configured client identifier. -/
+structure EstInv (cfgId : Bytes) (s : Session) : Prop where
+  /-- before the first accepted CONNACK the session is not established … -/
+  notYet : s.data.everAccepted = false → s.data.sessionPresent = false
+  /-- … afterwards it is, unless finding F19 has struck since the last accepted CONNACK -/
+  est : s.data.everAccepted = true → s.data.halfReset = false → s.data.sessionPresent = true
+  /-- a half-reset session is not established -/
+  half : s.data.halfReset = true → s.data.sessionPresent = false
+  /-- the client identifier is the last assigned one, or the configured one if none was ever assigned -/
+  cid : s.clientId = s.data.assignedId.getD cfgId
+  cidLen : ∀ bs, s.data.assignedId = some bs → bs.length ≤ CLIENT_ID_CAPACITY
+  /-- an identifier can only have been assigned by an accepted CONNACK -/
+  assignedLate : s.data.everAccepted = false → s.data.assignedId = none
+
+theorem EstInv_new (cfg : Cfg) : EstInv cfg.clientId (Session.new cfg) := by
+  refine ⟨fun _ => rfl, ?_, ?_, rfl, ?_, fun _ => rfl⟩
+  · intro h; cases h
+  · intro h; cases h
+  · intro bs h; cases h
+
+/-- The invariant only looks at the ghost history, `sessionPresent` and the client identifier. -/
+theorem EstInv.of_same {cfgId : Bytes} {s s' : Session} (h : EstInv cfgId s)
+    (e1 : s'.data.everAccepted = s.data.everAccepted) (e2 : s'.data.halfReset = s.data.halfReset)
+    (e3 : s'.data.assignedId = s.data.assignedId) (e4 : s'.data.sessionPresent = s.data.sessionPresent)
+    (e5 : s'.clientId = s.clientId) : EstInv cfgId s' := by
+  refine ⟨?_, ?_, ?_, ?_, ?_, ?_⟩
+  · rw [e1, e4]; exact h.notYet
+  · rw [e1, e2, e4]; exact h.est
+  · rw [e2, e4]; exact h.half
+  · rw [e5, e3]; exact h.cid
+  · rw [e3]; exact h.cidLen
+  · rw [e1, e3]; exact h.assignedLate
+
+theorem Prim.ghostIdentity {s s' : Session} (h : Prim s s') :
+    (∃ sp block now, s' = (s.activate sp block now).1) ∨ (SameGhost s s' ∧ SameIdentity s s') := by
+  rcases h.ghost with ha | hg
+  · exact Or.inl ha
+  · rcases h.identity with ha | hid
+    · exact Or.inl ha
+    · exact Or.inr ⟨hg, hid⟩
+
+theorem EstInv.step {cfgId : Bytes} {s s' : Session} (h : EstInv cfgId s) (p : Prim s s') : EstInv cfgId s' := by
+  rcases p.ghostIdentity with ⟨sp, block, now, rfl⟩ | ⟨hg, hid⟩
+  · by_cases hb : connackBlockOk block
+    · rw [(activate_eq s sp block now).1 hb]
+      obtain ⟨a1, a2, a3, a4, a5⟩ := activated_ghost s sp block now
+      refine ⟨?_, ?_, ?_, ?_, ?_, ?_⟩
+      · intro h0; rw [a1] at h0; cases h0
+      · intro _ _; exact a3
+      · intro h0; rw [a2] at h0; cases h0
+      · rw [a5, a4, h.cid]
+        cases lastStr .AssignedClientIdentifier (iterEncoded block) <;> rfl
+      · intro bs hbs
+        rw [a4] at hbs
+        cases hl : lastStr .AssignedClientIdentifier (iterEncoded block) with
+        | none => rw [hl] at hbs; exact h.cidLen bs hbs
+        | some c =>
+          rw [hl] at hbs
+          have hbs' : some c = some bs := hbs
+          have hcb : c = bs := Option.some.inj hbs'
+          obtain ⟨it, hit, hs⟩ := lastStr_mem hl
+          rw [← hcb]
+          exact (hb it hit).2.1 c hs
+      · intro h0; rw [a1] at h0; cases h0
+    · rw [(activate_eq s sp block now).2 hb]
+      obtain ⟨⟨t1, t2, t3, t4, t5⟩, ⟨f1, f2, f3, f4, f5⟩⟩ := rejected_ghost s
+      cases sp with
+      | true => exact h.of_same t1 t2 t4 t3 t5
+      | false =>
+        refine ⟨fun _ => f3, ?_, fun _ => f3, ?_, ?_, ?_⟩
+        · intro _ h1; rw [f2] at h1; cases h1
+        · rw [f5, f4]; exact h.cid
+        · rw [f4]; exact h.cidLen
+        · rw [f1, f4]; exact h.assignedLate
+  · exact h.of_same hg.everAccepted hg.halfReset hg.assignedId hid.sessionPresent hid.clientId
+
+theorem closed_EstInv (cfgId : Bytes) : Closed (EstInv cfgId) :=
+  (closed_iff_prim _).2 fun _ _ p h => h.step p
+
+/-- `halfReset` is raised exactly by the F19 step — a CONNACK with Session Present = 0 whose property
+block is rejected — and cleared exactly by an accepted CONNACK; no other primitive touches it. -/
+theorem Prim.halfReset_changes {s s' : Session} (h : Prim s s') :
+    s'.data.halfReset = s.data.halfReset ∨
+    (∃ block now, s' = (s.activate false block now).1 ∧ ¬ connackBlockOk block ∧
+      (s.activate false block now).2 = .error .peerInvalid ∧ s'.data.halfReset = true ∧
+      s'.data.sessionPresent = false) ∨
+    (∃ sp block now, s' = (s.activate sp block now).1 ∧ (s.activate sp block now).2 = .ok () ∧
+      s'.data.halfReset = false) := by
+  rcases h.ghost with ⟨sp, block, now, rfl⟩ | hg
+  · by_cases hb : connackBlockOk block
+    · right; right
+      refine ⟨sp, block, now, rfl, (activate_ok_iff s sp block now).2 hb, ?_⟩
+      rw [(activate_eq s sp block now).1 hb]; exact (activated_ghost s sp block now).2.1
+    · cases sp with
+      | true => left; rw [(activate_eq s true block now).2 hb]; exact (rejected_ghost s).1.2.1
+      | false =>
+        right; left
+        refine ⟨block, now, rfl, hb, ?_, ?_, ?_⟩
+        · rw [(activate_eq s false block now).2 hb]
+        · rw [(activate_eq s false block now).2 hb]; exact (rejected_ghost s).2.2.1
+        · rw [(activate_eq s false block now).2 hb]; exact (rejected_ghost s).2.2.2.1
+  · exact Or.inl hg.halfReset
+
+/-- The F19 step always raises the flag, an accepted CONNACK always clears it. -/
+theorem activate_halfReset (s : Session) (sp : Bool) (block : Bytes) (now : Nat) :
+    (¬ connackBlockOk block → sp = false → (s.activate sp block now).1.data.halfReset = true) ∧
+    (¬ connackBlockOk block → sp = true → (s.activate sp block now).1.data.halfReset = s.data.halfReset) ∧
+    (connackBlockOk block → (s.activate sp block now).1.data.halfReset = false ∧
+      (s.activate sp block now).1.data.everAccepted = true) := by
+  refine ⟨?_, ?_, ?_⟩
+  · intro hb hsp; subst hsp
+    rw [(activate_eq s false block now).2 hb]; exact (rejected_ghost s).2.2.1
+  · intro hb hsp; subst hsp
+    rw [(activate_eq s true block now).2 hb]; exact (rejected_ghost s).1.2.1
+  · intro hb
+    rw [(activate_eq s sp block now).1 hb]
+    exact ⟨(activated_ghost s sp block now).2.1, (activated_ghost s sp block now).1⟩
+
+/-- `everAccepted` is never cleared and is raised exactly by an accepted CONNACK. -/
+theorem Prim.everAccepted_changes {s s' : Session} (h : Prim s s') :
+    (s.data.everAccepted = true → s'.data.everAccepted = true) ∧
+    (s.data.everAccepted = false → s'.data.everAccepted = true →
+      ∃ sp block now, s' = (s.activate sp block now).1 ∧ (s.activate sp block now).2 = .ok ()) := by
+  rcases h.ghost with ⟨sp, block, now, rfl⟩ | hg
+  · by_cases hb : connackBlockOk block
+    · have e : (s.activate sp block now).1.data.everAccepted = true := ((activate_halfReset s sp block now).2.2 hb).2
+      exact ⟨fun _ => e, fun _ _ => ⟨sp, block, now, rfl, (activate_ok_iff s sp block now).2 hb⟩⟩
+    · have e : (s.activate sp block now).1.data.everAccepted = s.data.everAccepted := by
+        rw [(activate_eq s sp block now).2 hb]
+        cases sp
+        · exact (rejected_ghost s).2.1
+        · exact (rejected_ghost s).1.1
+      exact ⟨fun h0 => e.trans h0, fun h0 h1 => by rw [e, h0] at h1; cases h1⟩
+  · exact ⟨fun h0 => hg.everAccepted.trans h0, fun h0 h1 => by rw [hg.everAccepted, h0] at h1; cases h1⟩
+
+/-- The recorded assigned identifier changes only in an accepted CONNACK that carries an Assigned Client
+Identifier; it is then the value of the last such property. -/
+theorem Prim.assignedId_changes {s s' : Session} (h : Prim s s') :
+    s'.data.assignedId = s.data.assignedId ∨
+    ∃ sp block now cid, s' = (s.activate sp block now).1 ∧ (s.activate sp block now).2 = .ok () ∧
+      lastStr .AssignedClientIdentifier (iterEncoded block) = some cid ∧ s'.data.assignedId = some cid := by
+  rcases h.ghost with ⟨sp, block, now, rfl⟩ | hg
+  · by_cases hb : connackBlockOk block
+    · cases hl : lastStr .AssignedClientIdentifier (iterEncoded block) with
+      | none =>
+        left
+        rw [(activate_eq s sp block now).1 hb, (activated_ghost s sp block now).2.2.2.1, hl]; rfl
+      | some cid =>
+        right
+        refine ⟨sp, block, now, cid, rfl, (activate_ok_iff s sp block now).2 hb, hl, ?_⟩
+        rw [(activate_eq s sp block now).1 hb, (activated_ghost s sp block now).2.2.2.1, hl]; rfl
+    · left
+      rw [(activate_eq s sp block now).2 hb]
+      cases sp
+      · exact (rejected_ghost s).2.2.2.2.1
+      · exact (rejected_ghost s).1.2.2.2.1
+  · exact Or.inl hg.assignedId
 end Minimq
